@@ -36,6 +36,10 @@
 (*   negs   u          `x = - u`  negb u  `x = -(u)`   other spellings of the same;   *)
 (*                     a rewriting pass of FindExactMatches removes every blank, so   *)
 (*                     negs turns into neg there (Norm)                               *)
+(*   self   x v        `x = 0.5*x + v`  the variable READS ITSELF (contractive): solved by *)
+(*                     the sweeps to x = 2*v; its own name is a token of its equation,  *)
+(*                     so MoveDecorative never sets it aside; it can never be evaluated *)
+(*                     once-through (time-zero passes, decorative pass)               *)
 (*   prod u v  `x = u * v`    quo u v  `x = u / v`  (divisor; systems in which the    *)
 (*                     divisor is 0 in some period are not generated; the spec reads  *)
 (*                     `/` as truncating integer division - any function of the two   *)
@@ -87,7 +91,7 @@ IsAlias(d) == d.kind \in {"alias", "palias"}         \* CleanupRightHandSide(eqn
 (* list_tokens(): the NAME tokens of a definition *)
 Names(d) ==
     CASE d.kind \in {"alias", "palias", "inc", "neg", "negs", "negb", "sq", "nsq", "dbl"} -> {d.u}
-      [] d.kind \in {"sum", "diff", "prod", "quo"} -> {d.u, d.v}
+      [] d.kind \in {"sum", "diff", "prod", "quo", "self"} -> {d.u, d.v}
       [] d.kind = "lag"                        -> {d.u, K}
       [] d.kind = "time"                       -> {K}
       [] OTHER                                 -> {}
@@ -111,6 +115,7 @@ Den(d, val) ==
       [] d.kind = "time"                -> val[K]
       [] d.kind \in {"neg", "negs", "negb"} -> 0 - val[d.u]
       [] d.kind = "prod"                -> val[d.u] * val[d.v]
+      [] d.kind = "self"                -> 2 * val[d.v]          \* the fixed point of x = 0.5*x + v
       [] d.kind = "quo"                 -> TruncDiv(val[d.u], val[d.v])
       [] d.kind = "sq"                  -> val[d.u] * val[d.u]
       [] d.kind = "nsq"                 -> 0 - val[d.u] * val[d.u]
@@ -134,16 +139,19 @@ HasIC(sys, x)  == x \in DOMAIN sys.ics /\ sys.ics[x] # NoIC
 (* This is at once: pass 3 / pass 4 of SetInitialConditions (`known` = time_zero_constants), *)
 (* the exact limit of the Jacobi sweeps of an acyclic block, and the retry loop over the     *)
 (* decorative equations.                                                                     *)
-RECURSIVE Close(_, _, _, _)
-Close(eqs, val, known, fuel) ==
-    LET ready == { i \in 1..Len(eqs) : eqs[i].var \notin known /\ Names(eqs[i].def) \subseteq known }
+(* `solving` = the equations are iterated (Jacobi sweeps), so an equation may read its own        *)
+(* variable; FALSE = they are evaluated once-through, where reading oneself is a NameError.         *)
+RECURSIVE Close(_, _, _, _, _)
+Close(eqs, val, known, fuel, solving) ==
+    LET Needs(i) == IF solving THEN Names(eqs[i].def) \ {eqs[i].var} ELSE Names(eqs[i].def)
+        ready == { i \in 1..Len(eqs) : eqs[i].var \notin known /\ Needs(i) \subseteq known }
     IN IF fuel = 0 \/ ready = {} THEN [val |-> val, known |-> known]
        ELSE LET got == { eqs[i].var : i \in ready }
                 val2 == [x \in DOMAIN val |->
                            IF x \in got
                            THEN Den(eqs[CHOOSE i \in ready : eqs[i].var = x].def, val)
                            ELSE val[x]]
-            IN Close(eqs, val2, known \cup got, fuel - 1)
+            IN Close(eqs, val2, known \cup got, fuel - 1, solving)
 
 (* k = 0: SetInitialConditions *)
 Sol0(sys) ==
@@ -155,8 +163,8 @@ Sol0(sys) ==
                  ELSE IF x \in exos THEN sys.exo[ExoOf(sys, x)].p[1]
                  ELSE IF HasIC(sys, x) THEN sys.ics[x] ELSE 0]
         k2 == { x \in vars : HasIC(sys, x) } \cup exos \cup {K}
-        r3 == Close(sys.endo, v2, k2, Len(sys.endo))                 \* pass 3
-        r4 == Close(sys.deco, r3.val, r3.known, Len(sys.deco))       \* pass 4
+        r3 == Close(sys.endo, v2, k2, Len(sys.endo), FALSE)          \* pass 3
+        r4 == Close(sys.deco, r3.val, r3.known, Len(sys.deco), FALSE)    \* pass 4
     IN r4.val
 
 (* _SolveStep: one period, with k = kval and the exogenous variables at index ei of their paths *)
@@ -169,8 +177,8 @@ SolStep(sys, prev, kval, ei) ==
                    ELSE IF x \in exos THEN sys.exo[ExoOf(sys, x)].p[ei]
                    ELSE IF x \in lags THEN prev[sys.lagged[LagOf(sys, x)].src]
                    ELSE Poison]
-        rE == Close(sys.endo, base, exos \cup lags \cup {K}, Len(sys.endo))
-        rD == Close(sys.deco, rE.val, rE.known, Len(sys.deco))
+        rE == Close(sys.endo, base, exos \cup lags \cup {K}, Len(sys.endo), TRUE)
+        rD == Close(sys.deco, rE.val, rE.known, Len(sys.deco), FALSE)
     IN rD.val
 
 (* k >= 1 of the ordinary solve *)
@@ -220,10 +228,13 @@ Horizon == 3
 WellPosed(sys, alldefs) ==
     LET vars == SysVars(sys)
         base == [x \in vars \cup {K} |-> 0]
-        r == Close(sys.endo, base, SeqVars(sys.exo) \cup SeqVars(sys.lagged) \cup {K}, Len(sys.endo))
+        r == Close(sys.endo, base, SeqVars(sys.exo) \cup SeqVars(sys.lagged) \cup {K}, Len(sys.endo), TRUE)
     IN /\ \A x \in DOMAIN alldefs : Names(alldefs[x]) \subseteq vars \cup {K}
        /\ SeqVars(sys.endo) \subseteq r.known
        /\ (\E x \in DOMAIN alldefs : alldefs[x].kind \in {"sq", "nsq", "prod"}) => sys.lagged = << >>
+       \* a self-reference is solved to within the tolerance only: keep the gain of what reads it at <= 2
+       /\ (\E x \in DOMAIN alldefs : alldefs[x].kind = "self") =>
+             \A x \in DOMAIN alldefs : alldefs[x].kind \notin {"sq", "nsq", "prod", "quo"}
        /\ (\E x \in DOMAIN alldefs : alldefs[x].kind = "quo") =>
              LET so == SolUpTo(sys, Horizon)
              IN \A x \in DOMAIN alldefs : alldefs[x].kind = "quo" =>
@@ -342,6 +353,7 @@ Options(i) ==
           \cup { D("exo", "", "", 0, ExoPaths[x]) }
           \cup { TimeDef }
           \cup { D(kd, u, "", 0, << >>) : kd \in {"neg", "negs", "negb", "sq", "nsq"}, u \in others }
+          \cup { D("self", x, v, 0, << >>) : v \in others }
           \cup { D("quo", q[1], q[2], 0, << >>) : q \in { r \in others \X others : r[1] # r[2] } }
           \cup { D("prod", q[1], q[2], 0, << >>) : q \in { r \in others \X others : Idx(r[1]) < Idx(r[2]) } }
           \cup { D("dbl", u, "", 2, << >>) : u \in others }
@@ -362,8 +374,9 @@ Rebuild          == phase = "find" /\ ~FindEnabled(St) /\ Set(RebuildOp(St))
 MoveDecorative   == phase = "move" /\ Set(MoveOp(St))
 LoopExit         == phase = "loop" /\ Set(LoopExitOp(St))
 (* (the steady-state option is not offered with a quotient: divisors are only known to be non-zero *)
-(*  in the periods of the ordinary solve)                                                          *)
-Solve(ss)        == phase = "done" /\ (ss => ~HasKind(St, {"quo"})) /\ SolveOK(ss, St) /\ Set(SolveOp(St, ss))
+(*  in the periods of the ordinary solve; nor with a self-reference: the settling run works at a   *)
+(*  tolerance of 1e-4, too coarse to read integers off its result)                                 *)
+Solve(ss)        == phase = "done" /\ (ss => ~HasKind(St, {"quo", "self"})) /\ SolveOK(ss, St) /\ Set(SolveOp(St, ss))
 
 NDeclared == Len(endo) + Len(lagged) + Len(exo)
 
